@@ -123,6 +123,9 @@ func (d *Driver) Run() {
 	}
 	// 2. the same run with one fault at every write attempt.
 	for ph, p := range base.Phases {
+		if cc.Epilogue && ph == len(base.Phases)-1 {
+			break // the epilogue is a fault-free probe
+		}
 		for k := 1; k <= p.WriteAttempts; k++ {
 			for _, f := range FaultKindsFor(p.WriteKinds[k-1]) {
 				plan := RunPlan{Seed: d.Seed, Mode: d.Mode, Depth: d.Depth, FaultPhase: ph, Fault: FaultPlan{AtWrite: k, Kind: f}}
